@@ -371,6 +371,85 @@ Fixpoint run_tbl (t : ctable) (l : list tact) : option ctable :=
     end
   end.
 
+(** ** count-tracking projection
+
+    Between [step] and [step_tbl]: the table WITH its reference counts but without the
+    ownership tokens.  Usable to replay a log that records, per event, the node whose
+    count is incremented / decremented (`retain` / `release`), so that the counts of
+    the implementation can be compared after every event.  Extra guards (an
+    implementation that violates them has a reference-count bug): a decrement never
+    meets a count of 0, the collector only frees count 0. *)
+
+Inductive ract :=
+| RGoi (lvl : nat) (ch : list edge) (fresh : positive)
+| RInc (id : positive)
+| RDec (id : positive)
+| RGc (id : positive).
+
+Definition erase_rc (a : act) : option ract :=
+  match a with
+  | AGoi _ lvl ch fresh => Some (RGoi lvl ch fresh)
+  | ARetain _ e => match eref e with RN id => Some (RInc id) | RT _ => None end
+  | ARelease _ e => match eref e with RN id => Some (RDec id) | RT _ => None end
+  | AGcNode id => Some (RGc id)
+  | AMove _ _ _ | ANot _ _ => None
+  end.
+
+(** every inner child of [ch] is stored with a count that covers the decrements *)
+Definition dec_ok_b (t : ctable) (ch : list edge) : bool :=
+  forallb (fun e => match eref e with
+                    | RT _ => true
+                    | RN id => match cfind t id with
+                               | Some nd => N.leb (N.of_nat (cnt id ch)) (crc nd)
+                               | None => false
+                               end
+                    end) ch.
+
+Definition step_rc (t : ctable) (a : ract) : option (ctable * option positive) :=
+  match a with
+  | RGoi lvl ch fresh =>
+    if node_pre_b t lvl ch then
+      match find_shape t lvl ch with
+      | Some id =>
+        if dec_ok_b t ch then Some (rc_inc id (dec_children t ch), Some id) else None
+      | None =>
+        match cfind t fresh with
+        | Some _ => None
+        | None => Some ((fresh, mkC lvl ch 1%N) :: t, Some fresh)
+        end
+      end
+    else None
+  | RInc id =>
+    match cfind t id with
+    | Some _ => Some (rc_inc id t, None)
+    | None => None
+    end
+  | RDec id =>
+    match cfind t id with
+    | Some nd => if N.eqb (crc nd) 0 then None else Some (rc_dec id t, None)
+    | None => None
+    end
+  | RGc id =>
+    match cfind t id with
+    | None => None
+    | Some nd =>
+      if N.eqb (crc nd) 0 then
+        let t1 := cremove id t in
+        if dec_ok_b t1 (cch nd) then Some (dec_children t1 (cch nd), None) else None
+      else None
+    end
+  end.
+
+Fixpoint run_rc (t : ctable) (l : list ract) : option ctable :=
+  match l with
+  | [] => Some t
+  | a :: r =>
+    match step_rc t a with
+    | None => None
+    | Some (t', _) => run_rc t' r
+    end
+  end.
+
 (** ** the snapshot of a concurrent state (the state type of the C01/C03/C05 theorems) *)
 
 Definition to_node (nd : cnode) : node := mkNode (cl nd) (cch nd) (cl nd) (crc nd).
